@@ -2,6 +2,7 @@ SPECIFICATION GSpec
 CONSTANTS
   Machine <- GenMachine
   CrashPoints = FALSE
+  RollFaults = TRUE
   MaxCount = 3
   Limit = 4
   MaxWrite = 6
@@ -15,5 +16,5 @@ CONSTANTS
   MaxDumps = 3
   PreDumps = 5
   MaxIds = 1000
-INVARIANTS Emit LogCountBound LogSizeBound EvCountBound DumpCountBound
+INVARIANTS Emit LogCountBound LogSizeBound EvCountBound EvStoppedQueueEmpty DumpCountBound
 CHECK_DEADLOCK FALSE
